@@ -68,6 +68,10 @@ def tlaps_prove(ctx, module, deps):
     return int(m.group(1))
 
 
+# findings of the backup driver that are about confidentiality at rest (C05), not about the backup schedule (C17)
+C05_BACKUP_FINDINGS = ("the state directory holds", "the key-encryption key was consulted")
+
+
 # ----------------------------------------------------------------------------- C07
 @check("C07")
 def c07(ctx):
@@ -848,7 +852,7 @@ def c05(ctx):
     # the backup task reads the live file: while an upload is in flight and after failed uploads the state directory must hold
     # the database file only, mode 0600 (no readable staging copy)
     results, wd3, _ = ctx.godrive("backup", "^TestBackupTimelines$", env={"VERIF_TRACES": 200 if th else 40}, name="backup-scan", timeout=1700)
-    rb = ctx.take(results, "backup-timelines")
+    rb = ctx.take(results, "backup-timelines", only=C05_BACKUP_FINDINGS)
     cov = {"evaluations": rt["counters"]["evaluations"] + rc["counters"]["scans"], "backup_timelines_scanned": rb["counters"].get("timelines", 0),
            "distinct_nontrivial": rt["counters"]["evaluations"],
            "rule": "tamper cases: every single-bit flip and every truncation length of a saved database file, every single-field splice between "
@@ -1614,7 +1618,7 @@ def c17(ctx):
     ctx.tlc_must_pass(run, "Backup: Consistent, RateLimit, Settled, ChangeDriven, Quiescent, CoverExact over all timelines; refinement of BackupInd")
     apal = apalache_inductive(ctx, "BackupInd", "Init", "IndInit", "IndInv", ["RateLimitStep"])
     results, wd, code = ctx.godrive("backup", "^TestBackupTimelines$", env={"VERIF_TRACES": 3000 if th else 300}, name="timelines", timeout=3000)
-    r = ctx.take(results, "backup-timelines")
+    r = ctx.take(results, "backup-timelines", drop=C05_BACKUP_FINDINGS)  # what the files and the key say is C05's business
     st = validate_branching(ctx, "BackupTrace", "BackupTrace.cfg", os.path.join(wd, "trace.ndjson"), 16 if th else 8, "backup",
                             {}, describe=lambda ev: json.dumps(ev, sort_keys=True)[:160])
     # the task is actually started by server.New when a bucket is configured (real time, loopback endpoint)
